@@ -17,6 +17,12 @@ written again, operationally):
   `intArith` = `self.logic`, `mgr` = the formula manager of the ENVIRONMENT (symbol table, fresh counter, sorts) —
   the only component that is shared by all parser objects of the environment and survives `_reset`.
   `cache.definitions` is written by `define` and never read: not modelled.
+  Completeness of `St`: after `__init__` the only attributes of a parser object that are ever assigned are `self.cache`
+  and `self.logic` (`parser.py`: `_reset`, `_cmd_set_logic`; the tables `interpreted`/`commands` are filled by the
+  constructors only), and the cache's fields are `keys definitions annotations _bound _unbound`; the tokenizer belongs to
+  one call. Of the environment the parser reads `formula_manager.symbols`, `_fresh_guess` (through `FreshSymbol`) and the
+  type manager's declared sorts; the manager's node table is invisible up to structural identity (C04, and the walker
+  part of C15).
 * `St.bind` / `St.unbind` / `St.checkpoint` / `St.rollback` — `parser.py:99-124` literally: `rollback` pops, for every
   name, (number of `bind`s − number of `unbind`s since the checkpoint) entries, computed from the journal only.
 * `rdValS … : Sexp → Except Err Val × St` — `get_expression` with the cache *mutated in place*: `_enter_let` binds
@@ -26,7 +32,8 @@ written again, operationally):
   code, `lc = false` is what `Impl/Parser.lean` models (its header lists the literal cache as not modelled);
   the theorems of `Proofs/C15Parser*.lean` hold for both, the refinement theorem (`rdValS false` computes `rdVal`)
   for `lc = false`.
-* `cmdS` — `get_command` (`parser.py:1234-1254`): `checkpoint`, run the handler, `rollback` when it raises.
+* `cmdS` — `get_command` (`parser.py:1246-1266`, after the repairs F42, F42b): `checkpoint`, run the handler,
+  `rollback` when it raises. `cmdTermsS` is `parse_expr_list` after F42b (a term that fails fails the command).
 * `getCommands` — `get_command_generator`: commands one after the other on the *same* state, stops at the first
   failure. `getScript` — `get_script`: `_reset`, then `getCommands`; `newParser σ` — `SmtLibParser(env)`.
 
